@@ -72,11 +72,20 @@ func genAuthCfg(r *rand.Rand) vfCfg {
 		c.Kerberos = "SIM.EXAMPLE"
 	}
 	c.DisableNorm = chance(r, 0.2)
-	switch r.IntN(4) {
+	switch r.IntN(6) {
 	case 0:
 		c.SSHExt = [][2]string{{"login@github.com", "${USERNAME}"}}
 	case 1:
 		c.SSHExt = [][2]string{{"login@github.com", "${USERNAME//./-}"}, {"x-role", "user"}}
+	case 2:
+		// flag style extensions: the value is empty
+		c.SSHExt = [][2]string{{"no-touch-required", ""}, {"login@github.com", "${USERNAME}"}}
+	case 3:
+		c.SSHExt = [][2]string{{"flag-${USERNAME}@example.com", ""}}
+	}
+	if chance(r, 0.3) {
+		// a published-keys file that already lists this server's own CA key(s) and/or another keymaster's
+		c.PubKeys = subset(r, []string{"ca_rsa", "ca_rsa_alt", "ca_ed25519"}, 0.5)
 	}
 	if chance(r, 0.5) {
 		c.CliTokenLife = pick(r, []string{"1h", "30m", "24h"})
@@ -156,6 +165,10 @@ func genAuthPlan(r *rand.Rand, tier, focus string) *vfPlan {
 		s := pick(r, vfSessNames)
 		u := sessUser[s]
 		x := r.IntN(100)
+		sf := 30 // share of second-factor steps
+		if focus == "C05" {
+			sf = 48
+		}
 		switch {
 		case (u == "" || x < 8) && chance(r, mintShare):
 			// a session carrying an arbitrary set of factor bits (authentic, minted by the server's own code)
@@ -202,7 +215,7 @@ func genAuthPlan(r *rand.Rand, tier, focus string) *vfPlan {
 					}
 				}
 			}
-		case x < 30:
+		case x < sf:
 			// a second factor step, sometimes adversarial
 			switch r.IntN(7) {
 			case 0, 1:
@@ -245,9 +258,13 @@ func genAuthPlan(r *rand.Rand, tier, focus string) *vfPlan {
 							st.A = pick(r, []string{"sess:" + pick(r, vfSessNames), "stale", "replay"})
 						}
 						add(st)
-						if chance(r, 0.3) {
+						if chance(r, 0.45) {
 							// the identical assertion delivered again, by the same or another session of the user
-							add(vfStep{Op: "webauthn_finish", Sess: pick(r, vfSessNames), Target: tok, A: "sess:" + ps})
+							rs := ps
+							if chance(r, 0.5) {
+								rs = pick(r, vfSessNames)
+							}
+							add(vfStep{Op: "webauthn_finish", Sess: rs, Target: tok, A: "sess:" + ps})
 						}
 					}
 					break
@@ -267,6 +284,14 @@ func genAuthPlan(r *rand.Rand, tier, focus string) *vfPlan {
 						st.A = pick(r, []string{"sess:" + pick(r, vfSessNames), "stale", "replay"})
 					}
 					add(st)
+					if chance(r, 0.3) {
+						// the identical sign response delivered again
+						rs := ps
+						if chance(r, 0.5) {
+							rs = pick(r, vfSessNames)
+						}
+						add(vfStep{Op: "u2fsignresp", Sess: rs, Target: tok, A: "sess:" + ps})
+					}
 				}
 			case 5:
 				if chance(r, 0.3) {
@@ -291,6 +316,8 @@ func genAuthPlan(r *rand.Rand, tier, focus string) *vfPlan {
 			}
 			if chance(r, 0.12) {
 				st.User = pick(r, vfHonestUsers) // on behalf of somebody (else)
+			} else if u != "" && chance(r, 0.06) {
+				st.User = strings.ToUpper(u[:1]) + u[1:] // own name, other spelling
 			}
 			if chance(r, 0.1) {
 				st.N = int64(1 + r.IntN(2))
@@ -300,6 +327,14 @@ func genAuthPlan(r *rand.Rand, tier, focus string) *vfPlan {
 				st.C = "none"
 			case c == 1:
 				st.C = "basic:" + u + ":cur"
+				if u != "" && chance(r, 0.4) {
+					// a case variant of the name, in the credentials and (usually) in the URL too
+					v := strings.ToUpper(u[:1]) + u[1:]
+					st.C = "basic:" + v + ":cur"
+					if chance(r, 0.7) {
+						st.User = v
+					}
+				}
 			case c == 2:
 				st.C = "basic:" + u + ":wrong"
 			case c == 3:
